@@ -12,6 +12,10 @@ from upword import MODES, PARAM_SETS, PW, SW, Expand, Peel, Reduce, Rot, SepSpli
 
 
 def strategies(mode):
+    if mode.startswith("gram:"):  # U-gram: the table-driven strategies of that universe
+        import ugram
+
+        return list(ugram.inner_pack(mode[5:]).initial_strats)
     return [Expand(mode), Peel(mode), Reduce(), Swap(), Rot(mode, 1, False), Rot(mode, 2, True), Rot(mode, 0, True, "bac"), Rot("canon", 1, True), Rot("canon", 0, True, "bac"), SepUnion(mode), SepSplit(mode)]
 
 
@@ -107,6 +111,14 @@ def classes(rnd, count, products=False):
         if c.is_empty():
             continue
         out.append((c, mode))
+        if rnd.random() < 0.06:  # U-gram rules: products whose first factor is not an atom and has a positive minimum, repeated children
+            import ugram
+
+            sig = rnd.choice(["Q", "Y", "E", "F", "S", "QY", "P", "P"])
+            pack = ugram.inner_pack(sig)
+            names = [k for st in pack.initial_strats for k in getattr(st, "table", {})]
+            if names:
+                out.append((ugram.GL(rnd.choice(names), sig), "gram:" + sig))
     return out
 
 
@@ -226,7 +238,12 @@ def collect(seed, nclasses, N, procs=16):
 def replay_desc(desc, N=6):
     """rebuild one rule form from its descriptor and evaluate it"""
     d = dict(desc["class"])
-    c = (SW if desc.get("sw") else PW).from_dict(d)
+    if "sig" in d:
+        import ugram
+
+        c = ugram.GL.from_dict(d)
+    else:
+        c = (SW if desc.get("sw") else PW).from_dict(d)
     for s in strategies(desc["mode"]):
         if type(s).__name__ == desc["strategy"]:
             rule = s(c)
